@@ -1,9 +1,9 @@
 package rules
 
 import (
-	"sort"
 	"go/token"
 	"go/types"
+	"sort"
 
 	"golang.org/x/tools/go/ssa"
 
@@ -17,19 +17,19 @@ type Sched struct {
 	e          *Env
 	Execute    *ssa.Function // (*Node).Execute
 	IsReady    *ssa.Function
-	Counter    *ssa.Function // by role: the function whose result the launch gate compares with maxActiveRuns (set by c15Gate)
-	IsSucceed  *ssa.Function // by role: the predicate of Status() that walks the nodes (set by c04StatusTable)
-	Launch     *ssa.Go       // the unique `go` whose closure reaches Execute
-	Loop       *ssa.Function // the scheduling loop: the function the launch belongs to in the virtual inlining view
-	LaunchFn   *ssa.Function // the function that textually holds the go statement (Loop itself, or a single-call-site helper of it)
-	GateFn     *ssa.Function   // the function holding the per-node pass (the loop over the nodes) the launch belongs to
-	GateSite   ssa.Instruction // in GateFn: the go statement, or the call that leads to it
-	GateLoop   *ir.Loop        // the loop over the nodes in GateFn
-	Worker     *ssa.Function // the launched closure / method
+	Counter    *ssa.Function          // by role: the function whose result the launch gate compares with maxActiveRuns (set by c15Gate)
+	IsSucceed  *ssa.Function          // by role: the predicate of Status() that walks the nodes (set by c04StatusTable)
+	Launch     *ssa.Go                // the unique `go` whose closure reaches Execute
+	Loop       *ssa.Function          // the scheduling loop: the function the launch belongs to in the virtual inlining view
+	LaunchFn   *ssa.Function          // the function that textually holds the go statement (Loop itself, or a single-call-site helper of it)
+	GateFn     *ssa.Function          // the function holding the per-node pass (the loop over the nodes) the launch belongs to
+	GateSite   ssa.Instruction        // in GateFn: the go statement, or the call that leads to it
+	GateLoop   *ir.Loop               // the loop over the nodes in GateFn
+	Worker     *ssa.Function          // the launched closure / method
 	LoopFns    map[*ssa.Function]bool // Loop and the single-call-site helpers it is made of (worker side excluded)
 	WorkerFns  map[*ssa.Function]bool // Worker and the single-call-site helpers it is made of
-	LoopNode   ssa.Value     // the node handed to the worker, in Loop's frame
-	WorkerNode ssa.Value     // the worker's node parameter
+	LoopNode   ssa.Value              // the node handed to the worker, in Loop's frame
+	WorkerNode ssa.Value              // the worker's node parameter
 	NodeStatus types.Type
 	NS         map[int64]string // NodeStatus constants
 	Status     types.Type
@@ -134,6 +134,14 @@ func (e *Env) resolveSched() *Sched {
 				if ir.NamedType(t) == e.P.Pkg(schedRel).Pkg.Path()+".Node" {
 					s.LoopNode = b
 					s.WorkerNode = s.Worker.FreeVars[i]
+					// a variable captured by reference is a cell: the node is what was
+					// stored into it (every load of the cell resolves to that value)
+					if _, isCell := b.(*ssa.Alloc); isCell {
+						if st := ir.StoresTo(b); len(st) == 1 {
+							s.LoopNode = ir.Resolve(st[0])
+							s.WorkerNode = s.LoopNode
+						}
+					}
 				}
 			}
 		}
